@@ -464,6 +464,17 @@ def check_program(v, prog_id, p, workdir, scopes=("extended", "basic"), targets=
                     w["key"] = prop + ":generated-zone-needs-more-transitions-than-the-processor-pool-holds"
                     w["what"] = ("the compiler emitted a zone whose recorded transition buffer size exceeds ExtendedZoneProcessor's fixed pool "
                                  "(kMaxTransitions = 8) and the pool filled up")
+                if w["key"].endswith(":transition-pool-high-water-in-edge-year"):
+                    w = dict(w)
+                    if (int(w.get("start_year", 0)), int(w.get("until_year", 0))) == (2000, 2050):
+                        # the range the shipped tables use and the estimator is adjusted for (Asia/Atyrau by name): a plain violation
+                        w["key"] = prop + ":transition-pool-high-water"
+                    else:
+                        # the buffer clause is C09's, not C03's: handed to C09 through the statistics (known finding there:
+                        # BufSizeEstimator sizes from [start_year, until_year), the processor also fills start_year-1 and until_year)
+                        w["program"], w["scope"] = prog_id, scope
+                        st.setdefault("edge_year_high_water", []).append(w)
+                        continue
                 v.violation(w["key"], w["what"] + " (arduino target)", w)
             v.absorb(vlib.ShardResult(), "")   # no-op, keeps interface uniform
             for b in r.san_blocks:
